@@ -131,6 +131,68 @@ Theorem C01_reject_regardless_of_dialed :
 Proof. exact reject_regardless_of_dialed. Qed.
 Print Assumptions C01_reject_regardless_of_dialed.
 
+(* ---- the payload parser on non-canonical inputs (the general statement is the decoder itself;
+   these two instances pin the behaviours the property text names) ---- *)
+(* a repeated identity_key: the last one wins *)
+Theorem C01_payload_last_key_wins :
+  forall k1 k2 sg,
+    len k1 < 128 -> len k2 < 128 -> len sg < 128 ->
+    decode_payload ([10; len k1] ++ k1 ++ [10; len k2] ++ k2 ++ [18; len sg] ++ sg)
+    = Some (mkPayload (Some k2) (Some sg)).
+Proof. exact decode_payload_last_key_wins. Qed.
+Print Assumptions C01_payload_last_key_wins.
+
+(* an unknown field (tag 3, varint) is skipped *)
+Theorem C01_payload_unknown_field_skipped :
+  forall key v sg,
+    len key < 128 -> v < 128 -> len sg < 128 ->
+    decode_payload ([10; len key] ++ key ++ [24; v] ++ [18; len sg] ++ sg)
+    = Some (mkPayload (Some key) (Some sg)).
+Proof. exact decode_payload_unknown_field_skipped. Qed.
+Print Assumptions C01_payload_unknown_field_skipped.
+
+(* ---- the TLS caller (QUIC): crypto/tls/certificate.rs::parse + verifier.rs, after the X.509 layer
+   (x509-parser, certificate validity and self-signature checked with ring: trusted) ---- *)
+(* the only way to be accepted: exactly one well-formed libp2p extension whose key blob is admitted
+   (same admission as above), whose signature verifies over P2P_SIGNING_PREFIX ++ the
+   certificate's SubjectPublicKeyInfo, the id being derived from that key and equal to the dialed
+   peer when there is one (verify_server_cert; verify_client_cert has none) *)
+Theorem C01_tls_accept_sound :
+  forall on_curve verify x spki expected p,
+    tls_accept on_curve verify x spki expected = Accept p ->
+    exists kb sg k,
+      x = TlsExt kb sg /\ decode_pubkey on_curve kb = KeyOk k /\
+      verify k (TLS_PREFIX ++ spki) sg = true /\
+      p = peer_id_of_key k /\ (expected = None \/ expected = Some p).
+Proof. exact tls_accept_sound. Qed.
+Print Assumptions C01_tls_accept_sound.
+
+Theorem C01_tls_accept_complete :
+  forall on_curve verify kb sg k spki expected,
+    decode_pubkey on_curve kb = KeyOk k -> verify k (TLS_PREFIX ++ spki) sg = true ->
+    (expected = None \/ expected = Some (peer_id_of_key k)) ->
+    tls_accept on_curve verify (TlsExt kb sg) spki expected = Accept (peer_id_of_key k).
+Proof. exact tls_accept_complete. Qed.
+Print Assumptions C01_tls_accept_complete.
+
+Theorem C01_tls_dialed_mismatch :
+  forall on_curve verify x spki p q,
+    tls_verify on_curve verify x spki = Accept p -> q <> p ->
+    tls_accept on_curve verify x spki (Some q) = Reject EMismatch.
+Proof. exact tls_reject_mismatch. Qed.
+Print Assumptions C01_tls_dialed_mismatch.
+
+(* under the single-message hypothesis: an extension made for one certificate key is refused in a
+   certificate with another key *)
+Theorem C01_tls_binding :
+  forall (on_curve : bytes -> bool) (verify : bytes -> bytes -> bytes -> bool),
+    (forall pk m m' sg, verify pk m sg = true -> verify pk m' sg = true -> m = m') ->
+    forall x spki spki' e' p',
+      tls_accept on_curve verify x spki' e' = Accept p' -> spki <> spki' ->
+      forall e, tls_accept on_curve verify x spki e = Reject ETlsIssuer.
+Proof. exact tls_binding. Qed.
+Print Assumptions C01_tls_binding.
+
 (* ---- binding to the static key of this very session ---- *)
 (* under the single-message hypothesis on `verify` (the unforgeability idealisation, listed in
    the trusted base; it is not a fact about ed25519): a payload accepted for one static key is
@@ -402,6 +464,13 @@ Theorem C01_dy_attacker_knows_only_public :
   forall (asec bad : N -> Prop) tr t, DY.valid asec bad tr -> DY.knows asec bad tr t -> DY.pub asec bad t.
 Proof. exact DY.knows_only_public. Qed.
 Print Assumptions C01_dy_attacker_knows_only_public.
+
+(* the attacker's knowledge only grows with the trace *)
+Theorem C01_dy_knowledge_monotone :
+  forall (asec bad : N -> Prop) tr tr' t,
+    incl tr tr' -> DY.knows asec bad tr t -> DY.knows asec bad tr' t.
+Proof. exact DY.knows_mono. Qed.
+Print Assumptions C01_dy_knowledge_monotone.
 
 Theorem C01_dy_secrets_never_leak :
   forall (asec bad : N -> Prop) tr,
